@@ -9,7 +9,12 @@ Four harnesses, one scenario generator:
 
 A remote SimSocket ("peer") sends a script of good and malformed datagrams through SimNet (loss / duplication / reordering by
 delays decided by ``net.dgram_policy``), some are injected directly (``net.inject_dgram``); the library side interleaves
-``send_packet`` and ``recv_packet`` calls.
+``send_packet`` and ``recv_packet`` calls.  On the asyncio endpoints two thirds of the runs also INTERRUPT receive calls: under
+``backend.timeout(t)`` / ``backend.move_on_after(t)`` with t in {0, 1/64, 2/64, 5/64}, through ``client.iter_received_packets()`` (default
+timeout 0, or k/64) and by ``task.cancel()`` of a pending ``recv_packet()`` task after a chosen virtual delay plus 0-2 loop iterations.
+An interrupted receive (TimeoutError, scope caught the cancellation, iterator stopped, task cancelled) is not an outcome and must not
+consume a datagram: the receive clause below is unchanged and therefore covers it (a datagram eaten by an interrupted call shifts every
+later outcome); such a loss is reported under its own clause/key.
 
 Oracle (exactly the property statement):
   send     every send_packet produced exactly one send()/sendto() on the socket (SimSocket.sent_log) and that payload, decoded by
@@ -19,7 +24,9 @@ Oracle (exactly the property statement):
            n outcomes: nothing merged, split, dropped or carried over;
   one-shot for self-delimiting formats (fixed-size / struct, pickle, and a local serializer that relies on the DEFAULT one-shot
            serialize()/deserialize() derived from the incremental interface) ``valid + extra bytes`` and ``valid - tail`` decode to
-           a parse error.
+           a parse error; for PickleSerializer, datagrams made of well-formed opcodes with ill-typed operands (unhashable dict key,
+           item assignment on an int, calling an int, BINBYTES8/BINUNICODE8 with an absurd length) must yield a packet or a parse
+           error like any other datagram (never a crash of build_packet_from_datagram), with the pure-Python and the C unpickler.
 """
 from __future__ import annotations
 
@@ -169,9 +176,15 @@ _SELF_DELIMITING = frozenset({"local-default", "struct", "namedtuple", "fixed", 
 RULE = (
     f"per run: one serializer entry ({len(_ENTRIES)} entries from {MATRIX_SOURCE} + a local serializer using the default one-shot "
     "serialize/deserialize), 0-5 send_packet calls and a script of 1-7 incoming datagrams of kinds {valid, truncated, extended, "
-    "bit-flipped, empty, two-valid-concatenated, garbage} sent by a remote socket through SimNet with swarm-chosen loss / "
+    "bit-flipped, empty, two-valid-concatenated, garbage; pickle family: half of the garbage datagrams are well-formed opcodes with "
+    "ill-typed operands / absurd BINBYTES8 lengths, which must yield a packet or a parse error at recv_packet and through the one-shot "
+    "interface with the C unpickler} sent by a remote socket through SimNet with swarm-chosen loss / "
     "duplication / per-datagram delays (reordering) or injected directly; recv calls with timeouts {0, k/64, None}, slow receiver "
-    "so that bursts queue up; in a quarter-to-half of the runs 1-3 pending socket errors (ECONNREFUSED) interleaved with the queued "
+    "so that bursts queue up; asyncio endpoints: in 2/3 of the runs receive calls are interrupted (backend.timeout(t) / move_on_after(t), "
+    "t in {0, 1/64, 2/64, 5/64}; AsyncUDPNetworkClient.iter_received_packets() with the default timeout 0 or a k/64 budget; task.cancel() "
+    "of a pending recv_packet() task after {0, 1, 2, 5}/64 s plus 0-3 loop iterations, i.e. also in the iteration right after the one in "
+    "which the datagram arrived): an interrupted call is no outcome and must consume no datagram (own clause/key "
+    "recv/lost-by-interrupted-receive); in a quarter-to-half of the runs 1-3 pending socket errors (ECONNREFUSED) interleaved with the queued "
     "datagrams (asyncio: scenarios without sends; blocking: a send may report the error, a send that returns normally must have "
     "produced its datagram); 1 run in 16 uses the jumbo size class (identity serializer, 65500..65527-byte payloads, AF_INET6); EAGAIN/EINTR on sendto/recvfrom; selector hold/reorder/spurious readiness. Packet domain = the "
     "entry's one-shot domain ('' is a valid line packet in one-shot mode; on asyncio endpoints it is generated only when "
@@ -197,6 +210,26 @@ ASSUMPTIONS = [
 ]
 
 KINDS = ("valid", "valid", "truncated", "extended", "bitflip", "empty", "concat", "garbage")
+
+# Well-formed pickle opcodes with ill-typed operands: the unpickler raises TypeError / OverflowError (not UnpicklingError) on them.
+# Hand-written and safe for the C unpickler too (the absurd lengths exceed PY_SSIZE_T_MAX: refused before any allocation).
+# Used as "garbage" datagrams of the pickle family; every one of them is a parse error for PickleSerializer.
+PICKLE_ILLTYPED = (
+    b"}]K\x01s.",  # {[]: 1}: unhashable key
+    b"K\x01K\x02K\x03s.",  # 1[2] = 3
+    b"K\x01)R.",  # 1()
+    b"K\x01K\x02\x85R.",  # 1(2)
+    b"}(]K\x01u.",  # SETITEMS with an unhashable key
+    b"\x8f(]\x90.",  # set.add([]) (ADDITEMS)
+    b"\x80\x04}]K\x01s.",
+    b"\x80\x02K\x01)R.",
+    b"]\x94h\x00K\x01\x85R.",  # [](1)
+    b"K\x01)\x81.",  # NEWOBJ on an int
+    b"\x8e" + (2**63 + 5).to_bytes(8, "little") + b"abc.",  # BINBYTES8, absurd length
+    b"\x8e" + (2**64 - 1).to_bytes(8, "little") + b".",
+    b"\x8d" + (2**63 + 1).to_bytes(8, "little") + b"abc.",  # BINUNICODE8, absurd length
+)
+_PICKLE_ILLTYPED_SET = frozenset(PICKLE_ILLTYPED)
 
 
 # ================================================================================================ reference
@@ -318,6 +351,10 @@ class Scenario:
                 world.fault("dgram_corrupt")
             if kind == "garbage":
                 d = bytes(rng.randrange(256) for _ in range(rng.choice((1, 2, 5, 17, 64))))
+                if self.family == "pickle" and world.choose("pickle_illtyped", 2):
+                    d = PICKLE_ILLTYPED[world.choose("pickle_illtyped_i", len(PICKLE_ILLTYPED))]
+                    kind = "illtyped"
+                    world.probe("pickle-illtyped-operands")
                 world.fault("dgram_corrupt")
             gap = world.choose("gap", 6)  # 0 => same instant as the previous one (burst)
             t += (0, 1, 2, 5, 16, 64)[gap]
@@ -369,6 +406,7 @@ class Scenario:
         for te in self.errors:
             world.at(te, self._socket_error)
         self.outcomes: list[tuple] = []
+        self.interrupted = 0  # receive calls that ended without an outcome because they were cancelled / timed out (asyncio modes)
         world.notes.update(entry=entry.name, engine=engine, variant=variant, sends=len(self.sends), socket_errors=self.errors, script=[(s["kind"], len(s["data"]), s["t"], s["via"]) for s in self.script], loss_den=self.loss_den, dup_den=self.dup_den, delay_mode=self.delay_mode, rx_slow=self.rx_slow)
 
     # -------------------------------------------------- network side
@@ -496,6 +534,53 @@ class Scenario:
                     raise Violation("valid-datagram-decodes-to-packet", f"{self.ctx()}: datagram {_short(item['data'])} of packet {_short(item['packet'])} decodes to {_short(ref)}", key=f"C05/oneshot/roundtrip/{self.family}")
             if ref[0] == "crash":
                 self.world.probe("reference-decode-crash:" + ref[1])
+            if item["kind"] == "illtyped" and ref[0] != "crash":
+                # the endpoint under test uses the pure-Python restricted unpickler: a crash there is reported where it is observed,
+                # at recv_packet (see record()).  Here: the same datagram through the one-shot interface with the C unpickler
+                # (other exception classes, e.g. OverflowError for the absurd lengths)
+                try:
+                    self.entry.datagram_protocol(None, False).build_packet_from_datagram(item["data"])
+                except DatagramProtocolParseError:
+                    pass
+                except Exception as exc:
+                    raise Violation(
+                        "datagram-yields-packet-or-parse-error",
+                        f"{self.ctx()}: the datagram {_short(item['data'])} (well-formed pickle opcodes, ill-typed operands) made build_packet_from_datagram() raise {type(exc).__name__}: {exc} instead of DatagramProtocolParseError (C unpickler)",
+                        key=f"C05/oneshot/illtyped-crash/{self.family}",
+                    )
+
+    def _lost_indices(self, delivered: list[bytes], out: list[tuple], final: bool) -> list[int] | None:
+        """indices of delivered datagrams that have to be skipped so that the outcomes are, in order, the decodings of the remaining
+        ones (greedy; None when the outcomes are not explained by pure losses).  Only used to name a failure of the receive clause."""
+        refs = [_decode_alone(self.entry, d) for d in delivered]
+        lost: list[int] = []
+        j = 0
+        for o in out:
+            while j < len(refs) and not _same_outcome(self.entry, o, refs[j]):
+                lost.append(j)
+                j += 1
+            if j == len(refs):
+                return None
+            j += 1
+        if final:
+            lost.extend(range(j, len(refs)))
+        return lost or None
+
+    def _check_interrupted_lost(self, delivered: list[bytes], out: list[tuple], final: bool) -> None:
+        """the receive clause failed in a run with interrupted receive calls: if the outcomes are exactly the delivered datagrams
+        minus some of them, report it as what it is (same demand as the clause below, more specific key)"""
+        if not self.interrupted:
+            return
+        lost = self._lost_indices(delivered, out, final)
+        if lost is None:
+            return
+        raise Violation(
+            "interrupted-receive-consumes-no-datagram",
+            f"{self.ctx()}: {len(delivered)} datagrams were delivered to the socket, {self.interrupted} receive calls were interrupted (timeout / cancellation) and returned nothing, "
+            f"and the datagrams #{lost} were never returned by any receive call although the receiver kept receiving: each of them yielded neither a packet nor a parse error\n"
+            f" delivered={_short(delivered, 600)}\n outcomes={_short(out, 600)}",
+            key=self.key("recv", "lost-by-interrupted-receive"),
+        )
 
     def check_receive(self, final: bool) -> None:
         delivered = self.delivered()
@@ -503,6 +588,7 @@ class Scenario:
         for k in range(min(len(out), len(delivered))):
             ref = _decode_alone(self.entry, delivered[k])
             if not _same_outcome(self.entry, out[k], ref):
+                self._check_interrupted_lost(delivered, out, False)
                 raise Violation(
                     "kth-outcome-equals-decoding-kth-datagram-alone",
                     f"{self.ctx()}: datagrams delivered to the socket: {_short(delivered, 600)}\n outcome #{k} is {_short(out[k])} but decoding datagram #{k} alone gives {_short(ref)}\n all outcomes: {_short(out, 600)}",
@@ -511,6 +597,7 @@ class Scenario:
         if len(out) > len(delivered):
             raise Violation("one-outcome-per-datagram", f"{self.ctx()}: {len(out)} receive outcomes for {len(delivered)} delivered datagrams: {_short(out, 600)}", key=self.key("recv", "extra-outcome"))
         if final and len(out) < len(delivered):
+            self._check_interrupted_lost(delivered, out, True)
             raise Violation(
                 "one-outcome-per-datagram",
                 f"{self.ctx()}: {len(delivered)} datagrams were delivered to the socket but only {len(out)} receive outcomes were produced although the receiver kept receiving: delivered={_short(delivered, 600)} outcomes={_short(out, 600)}",
@@ -525,6 +612,14 @@ class Scenario:
         elif fn_result[0] == "err":
             self.world.probe("parse-error-reported")
         self.check_receive(final=False)
+        if fn_result[0] == "crash" and self.family == "pickle":
+            data = self.delivered()[len(self.outcomes) - 1]
+            if data in _PICKLE_ILLTYPED_SET:
+                raise Violation(
+                    "datagram-yields-packet-or-parse-error",
+                    f"{self.ctx()}: the received datagram {_short(data)} (well-formed pickle opcodes, ill-typed operands) yielded neither a packet nor a DatagramProtocolParseError: recv_packet raised RuntimeError('...crashed') from {fn_result[1]}",
+                    key=self.key("recv", "illtyped-crash"),
+                )
 
 
 def _vsleep(world: World, dt: float) -> None:
@@ -629,6 +724,10 @@ def _h_sync(world: World, variant: str) -> None:
 
 
 # ================================================================================================ asyncio harnesses
+# receive modes of the asyncio harnesses (0 = the boring one) and the delays used for timeouts / cancellations (0 first)
+_RX_MODES = ("plain", "timeout", "move-on", "iter", "cancel")
+_RX_TIMES = (0.0, 1 / 64.0, 2 / 64.0, 5 / 64.0)
+
 def _h_aio(world: World, variant: str) -> None:
     from vsim.backend import SimAsyncIOBackend
     from vsim.loop import run_async
@@ -637,6 +736,10 @@ def _h_aio(world: World, variant: str) -> None:
     protocol = sc.entry.datagram_protocol(None, True)
     backend = SimAsyncIOBackend(sc.net)
     state = {"sent": 0}
+    # how this run receives: 0 = plain recv_packet() only | 1 = every call draws its mode | 2 = one interrupting mode for the whole run
+    rx_style = world.choose("rx_style", 3)
+    rx_fixed = 1 + world.choose("rx_fixed_mode", len(_RX_MODES) - 1) if rx_style == 2 else 0
+    world.notes.update(rx_style=rx_style, rx_mode=_RX_MODES[rx_fixed] if rx_style == 2 else ("plain", "mixed")[rx_style])
 
     async def main() -> None:
         loop = asyncio.get_running_loop()
@@ -661,22 +764,148 @@ def _h_aio(world: World, variant: str) -> None:
     async def body(ep: Any) -> None:
         sc.check_script_claims()
 
-        async def receiver() -> None:
-            while True:
-                try:
+        def failed(exc: BaseException) -> None:
+            """a receive call ended with an exception that is neither a cancellation nor a timeout of the caller"""
+            res = _classify_exc(exc)
+            if res is None:
+                sc.socket_error_outcome(exc)
+            else:
+                sc.record(res)
+
+        def interrupted(how: str, timed: bool) -> None:
+            """the call was cancelled / timed out: no outcome, and (receive clause) no datagram consumed"""
+            sc.interrupted += 1
+            world.log("outcome", "rx", how)
+            world.fault("cancel_at_time" if timed else "cancel_at_iteration")
+            world.probe("rx-interrupted:" + how)
+
+        async def call_plain() -> bool:
+            try:
+                v = await ep.recv_packet()
+            except asyncio.CancelledError:
+                raise
+            except BaseException as exc:
+                failed(exc)
+            else:
+                sc.record(("pkt", v))
+            return True
+
+        async def call_timeout(t: float) -> bool:
+            world.log("call", "recv", "timeout", t)
+            try:
+                with backend.timeout(t):
                     v = await ep.recv_packet()
+            except TimeoutError:
+                interrupted("timeout", t > 0)
+                return False
+            except asyncio.CancelledError:
+                raise
+            except BaseException as exc:
+                failed(exc)
+            else:
+                sc.record(("pkt", v))
+            return True
+
+        async def call_move_on(t: float) -> bool:
+            world.log("call", "recv", "move-on-after", t)
+            got: list = []
+            try:
+                with backend.move_on_after(t) as scope:
+                    got.append(await ep.recv_packet())
+            except asyncio.CancelledError:
+                raise
+            except BaseException as exc:
+                failed(exc)
+                return True
+            if got:
+                sc.record(("pkt", got[0]))
+                return True
+            if not scope.cancelled_caught():
+                raise HarnessError("move_on_after(): no result, no exception and the scope did not catch a cancellation")
+            interrupted("move-on", t > 0)
+            return False
+
+        async def call_iter(t: float, n: int) -> bool:
+            """AsyncUDPNetworkClient.iter_received_packets(): default timeout (0) or a small total budget; up to n items.
+            The iterator turns TimeoutError and every other OSError into the end of the iteration (documented)."""
+            world.log("call", "recv", "iter", t, n)
+            it = ep.iter_received_packets() if t == 0 else ep.iter_received_packets(timeout=t)
+            any_outcome = False
+            for _ in range(n):
+                try:
+                    v = await anext(it)
+                except StopAsyncIteration as stop:
+                    cause = stop.__cause__
+                    if isinstance(cause, TimeoutError):
+                        interrupted("iter-timeout", t > 0)
+                    elif isinstance(cause, BaseException):
+                        failed(cause)  # an OSError reported by the socket ended the iteration: an outcome that consumes no datagram
+                        any_outcome = True
+                    else:
+                        raise HarnessError("iter_received_packets() stopped without a cause")
+                    break
                 except asyncio.CancelledError:
                     raise
                 except BaseException as exc:
-                    res = _classify_exc(exc)
-                    if res is None:
-                        sc.socket_error_outcome(exc)
-                    else:
-                        sc.record(res)
+                    failed(exc)  # parse error: the iterator object stays usable
+                    any_outcome = True
                 else:
                     sc.record(("pkt", v))
+                    any_outcome = True
+            return any_outcome
+
+        async def call_cancel(d: float, hops: int) -> bool:
+            """recv_packet() in its own task, task.cancel() from this one after d virtual seconds plus `hops` loop iterations
+            (d > 0: this task wakes up in the loop iteration after the one in which a datagram arriving at that very time woke
+            the receiving task up)"""
+            world.log("call", "recv", "cancel", d, hops)
+            inner = asyncio.create_task(ep.recv_packet(), name="c05-rx-call")
+            try:
+                if d:
+                    await asyncio.sleep(d)
+                for _ in range(hops):
+                    await asyncio.sleep(0)
+                if not inner.done():
+                    world.log("cancel", "rx-call")
+                    inner.cancel()
+                await asyncio.wait({inner})
+            except asyncio.CancelledError:  # the harness is stopping the receiver
+                inner.cancel()
+                await asyncio.gather(inner, return_exceptions=True)
+                raise
+            if inner.cancelled():
+                interrupted("task-cancel", d > 0)
+                return False
+            exc = inner.exception()
+            if exc is not None:
+                failed(exc)
+            else:
+                sc.record(("pkt", inner.result()))
+            return True
+
+        async def receiver() -> None:
+            while True:
+                mode = rx_fixed if rx_style == 2 else (world.choose("rx_mode", len(_RX_MODES)) if rx_style == 1 else 0)
+                name = _RX_MODES[mode]
+                if name == "iter" and variant != "client":
+                    name = "timeout"  # the low-level endpoint has no iterator
+                if name == "plain":
+                    got = await call_plain()
+                elif name == "cancel":
+                    d = _RX_TIMES[world.choose("rx_cancel_after", len(_RX_TIMES))]
+                    got = await call_cancel(d, world.choose("rx_cancel_hops", 3) + (0 if d else 1))
+                else:
+                    t = _RX_TIMES[world.choose("rx_timeout", len(_RX_TIMES))]
+                    if name == "timeout":
+                        got = await call_timeout(t)
+                    elif name == "move-on":
+                        got = await call_move_on(t)
+                    else:
+                        got = await call_iter(t, 1 + world.choose("rx_iter_n", 3))
                 if sc.rx_slow:
                     await asyncio.sleep(sc.rx_slow)
+                elif not got:
+                    await asyncio.sleep(1 / 64.0)  # a poll that found nothing: come back later (virtual time must move on)
 
         async def sender() -> None:
             for (p, d) in sc.sends:
